@@ -60,4 +60,7 @@ def run(P, R, L):
     R.once(_blind.own15_who_may_say_not_found, P, R, L)
     R.clause("GRD-37", "a block handle (footer / index entry) is compared with the file length before a buffer of its size is allocated: a damaged handle is an error, not an allocator abort")
     R.once(_blind.grd37_block_handle_within_the_file, P, R, L)
+    from . import round12
+    R.clause("CACHE-2", "the LRU cache behind the table cache and the block cache is asked, filled and pruned with the caller's key; partition ids are fresh; a block-cache miss reads and caches the requested handle")
+    R.once(round12.cache2_cache_identity, P, R, L)
     R.not_decided += ["prefix compression, separators, seek positions, iteration order (computed bytes)"]
